@@ -10,8 +10,8 @@ open Sm.Gen (Coltype)
 
 /-! ### StandaloneManifestIndex over a SQLite manifest -/
 
-theorem rowKey_sqlRow (r : Row) : rowKey (sqlRow r) = rowKey r := by
-  unfold rowKey
+theorem rowKeyW_sqlRow (e : Bool) (r : Row) : rowKeyW e (sqlRow r) = rowKeyW e r := by
+  unfold rowKeyW
   rw [rowRaw_sqlRow]
 
 theorem sqlWherePasses_total {s : Sig} (d : Crit) (loc : Nat) (hwf : WF s) :
@@ -19,13 +19,13 @@ theorem sqlWherePasses_total {s : Sig} (d : Crit) (loc : Nat) (hwf : WF s) :
   rw [sqlWherePasses_eq_ref, refSqlWhere_eq_satCore d loc hwf]
 
 /-- what `signatures()` of a standalone SQLite manifest holding the merged selection dict `d` yields: the files of the
-    rows passing the SQL `WHERE` (`locations()` ignores the picklist), filtered by (identifier, md5[:8]) ∈ the rows
-    passing `WHERE` and picklist -/
+    rows passing the SQL `WHERE` (`locations()` ignores the picklist), filtered by "shares its key with a row passing
+    `WHERE` and picklist" -/
 theorem sqlmf_signatures {rs : List (Row × Sig)} {store : Store} (d : Crit) (hok : SmiOk rs store)
     (hwf : ∀ x ∈ rs, WF x.2) :
     (Coll.sqlmf (rs.map (·.1)) d store).signatures =
       .ok ((locations ((rs.filter (fun x => satCore d x.2)).map (·.1))).flatMap (fun loc =>
-        (store.load loc).filter (keyIn (rs.filter (fun x => Sat d x.2))))) := by
+        (store.load loc).filter (keyIn Gen.toPicklistExactSql (rs.filter (fun x => Sat d x.2))))) := by
   have h1 : filterE (fun r => sqlRowPasses r d) (rs.map (·.1)) = .ok ((rs.filter (fun x => Sat d x.2)).map (·.1)) := by
     rw [filterE_map, filterE_ok_of_forall (f := fun x : Row × Sig => Sat d x.2)]
     intro x hx
@@ -36,32 +36,32 @@ theorem sqlmf_signatures {rs : List (Row × Sig)} {store : Store} (d : Crit) (ho
     intro x hx
     rw [hok.rows x hx]
     exact sqlWherePasses_total d _ (hwf x hx)
-  simp only [Coll.signatures, h1, h2, toPicklist_total, loadViaPicklist_total]
+  simp only [Coll.signatures, h1, h2, standaloneSignatures_total]
   congr 1
   apply flatMap_congr_mem
   intro loc _
   apply List.filter_congr
   intro s _
-  rw [manifestPicklist_hasSig]
-  have : (((rs.filter (fun x => Sat d x.2)).map (·.1)).map sqlRow).map rowKey
-      = ((rs.filter (fun x => Sat d x.2)).map (·.1)).map rowKey := by
+  have : (((rs.filter (fun x => Sat d x.2)).map (·.1)).map sqlRow).map (rowKeyW Gen.toPicklistExactSql)
+      = ((rs.filter (fun x => Sat d x.2)).map (·.1)).map (rowKeyW Gen.toPicklistExactSql) := by
     rw [List.map_map]
     apply List.map_congr_left
     intro r _
-    exact rowKey_sqlRow r
-  rw [this, contains_rowKeys hok.rows (fun x hx => (List.mem_filter.mp hx).1)]
+    exact rowKeyW_sqlRow _ r
+  rw [this, contains_rowKeys _ hok.rows (fun x hx => (List.mem_filter.mp hx).1)]
 
 /-- the SQLite flavour of `SmiExact`: files are listed by the SQL `WHERE` alone -/
-def SqlmfExact (rs : List (Row × Sig)) (d : Crit) : Prop :=
+def SqlmfExact (e : Bool) (rs : List (Row × Sig)) (d : Crit) : Prop :=
   ∀ t ∈ rs, (∃ u ∈ rs, satCore d u.2 = true ∧ u.1.loc = t.1.loc) →
-    keyIn (rs.filter (fun x => Sat d x.2)) t.2 = true → Sat d t.2 = true
+    keyIn e (rs.filter (fun x => Sat d x.2)) t.2 = true → Sat d t.2 = true
 
 theorem sqlmf_signatures_exact {rs : List (Row × Sig)} {store : Store} (d : Crit) (hok : SmiOk rs store)
-    (hwf : ∀ x ∈ rs, WF x.2) (hex : SqlmfExact rs d) :
+    (hwf : ∀ x ∈ rs, WF x.2) (hex : SqlmfExact Gen.toPicklistExactSql rs d) :
     ∃ l, (Coll.sqlmf (rs.map (·.1)) d store).signatures = .ok l ∧ l.Perm ((rs.map (·.2)).filter (Sat d)) := by
   refine ⟨_, sqlmf_signatures d hok hwf, ?_⟩
   simp only [locations, List.map_map]
-  have := reload_exact hok (fun x => Sat d x.2) ((rs.filter (fun x => satCore d x.2)).map ((·.loc) ∘ (·.1))) ?_ ?_
+  have := reload_exact Gen.toPicklistExactSql hok (fun x => Sat d x.2)
+    ((rs.filter (fun x => satCore d x.2)).map ((·.loc) ∘ (·.1))) ?_ ?_
   · rw [List.filter_map]
     exact this
   · intro x hx
@@ -163,7 +163,7 @@ theorem loadPickset_meta {ct : Coltype} (hct : ct.isMeta = true) (l : List Sig) 
   have hk : ∀ s : Sig, csvValue ct (.p s.name s.md5) = some (keyOf s) := by
     intro s
     cases ct <;> simp [Gen.Coltype.isMeta] at hct <;>
-      simp [csvValue, PVal.truthy, keyOf, preOf, Gen.preprocessOf, sigAttr, Gen.sigAttrOf, applyPre]
+      simp [csvValue, PVal.truthy, keyOf, keyOfW, keyPre, preOf, Gen.preprocessOf, sigAttr, Gen.sigAttrOf, applyPre]
   constructor
   · rintro ⟨raw, ⟨s, hs, rfl⟩, hv⟩
     rw [hk s] at hv
@@ -172,10 +172,10 @@ theorem loadPickset_meta {ct : Coltype} (hct : ct.isMeta = true) (l : List Sig) 
   · rintro ⟨s, hs, rfl⟩
     exact ⟨_, ⟨s, hs, rfl⟩, hk s⟩
 
-theorem hasSig_meta {ct : Coltype} (hct : ct.isMeta = true) (pl : Picklist) (hpl : pl.coltype = ct) (s : Sig) :
-    pl.hasSig s = pl.decide (keyOf s) := by
-  unfold Picklist.hasSig
-  rw [hpl]
+theorem hasSig_meta {ct : Coltype} (hct : ct.isMeta = true) (pl : Picklist) (hpl : pl.coltype = ct)
+    (hloaded : pl.exactRows = false) (s : Sig) : pl.hasSig s = pl.decide (keyOf s) := by
+  unfold Picklist.hasSig Picklist.pre
+  rw [hpl, hloaded]
   cases ct <;> simp [Gen.Coltype.isMeta] at hct <;> rfl
 
 end Sm.Select
